@@ -17,7 +17,7 @@ def dlt (k w : Nat) : Nat := w * 2 ^ (8 - k)
 def setBuf0 (x : Nat) (c : Enc) : Enc := { c with buf := c.buf.set 0 x }
 def setRem (r : Int) (c : Enc) : Enc := { c with rem := r }
 def setExt (e : Nat) (c : Enc) : Enc := { c with ext := e }
-def twinB (δ : Nat) (c : Enc) : Enc := setBuf0 (c.buf.getD 0 0 + δ) c
+def twinB (f : Nat → Nat) (c : Enc) : Enc := setBuf0 (f (c.buf.getD 0 0)) c
 /-- first digit pending in `rem` (a digit 0xFF is counted in `ext` instead) -/
 def twinR (δ : Nat) (c : Enc) : Enc :=
   if c.rem.toNat + δ = 255 then setRem (-1) (setExt (u32 (c.ext + 1)) c)
@@ -26,7 +26,7 @@ def twinR (δ : Nat) (c : Enc) : Enc :=
 def twinV (D : Nat) (c : Enc) : Enc := { c with val := c.val + D }
 
 def twin (k w : Nat) (c : Enc) : Enc :=
-  if c.offs ≥ 1 then twinB (dlt k w) c
+  if c.offs ≥ 1 then twinB (fun b => patchByte b w k % 256) c
   else if c.rem ≥ 0 then twinR (dlt k w) c
   else twinV (w * 2 ^ (31 - k)) c
 
@@ -214,19 +214,20 @@ theorem carryOut_set0 (c : Enc) (x cc : Nat) (ho : 1 ≤ c.offs) :
       rw [a1]
       exact ⟨rfl, a2, a3⟩
 
-theorem carryOut_twinB (δ : Nat) (c : Enc) (cc : Nat) (ho : 1 ≤ c.offs) :
-    carryOut (twinB δ c) cc = twinB δ (carryOut c cc) ∧ 1 ≤ (carryOut c cc).offs := by
-  obtain ⟨a1, a2, a3⟩ := carryOut_set0 c (c.buf.getD 0 0 + δ) cc ho
+theorem carryOut_twinB (f : Nat → Nat) (c : Enc) (cc : Nat) (ho : 1 ≤ c.offs) :
+    carryOut (twinB f c) cc = twinB f (carryOut c cc) ∧ 1 ≤ (carryOut c cc).offs := by
+  obtain ⟨a1, a2, a3⟩ := carryOut_set0 c (f (c.buf.getD 0 0)) cc ho
   refine ⟨?_, a3⟩
   unfold twinB
   rw [a1, a2]
 
 /-! ### Phase R: the first digit is pending in `rem` -/
 
-theorem carryOut_twinR (δ : Nat) (c : Enc) (cc : Nat) (hcc : cc ≠ 255) (ho : c.offs = 0) (hr : 0 ≤ c.rem)
+theorem carryOut_twinR (δ : Nat) (f : Nat → Nat) (c : Enc) (cc : Nat) (hcc : cc ≠ 255) (ho : c.offs = 0) (hr : 0 ≤ c.rem)
     (hsp : c.offs + c.endOffs < c.storage) (hlen : c.storage ≤ c.buf.length)
-    (hδ : c.rem.toNat + cc / 256 + δ ≤ 255) (hext : c.ext + 1 < 4294967296) :
-    carryOut (twinR δ c) cc = twinB δ (carryOut c cc) ∧ 1 ≤ (carryOut c cc).offs := by
+    (hδ : c.rem.toNat + cc / 256 + δ ≤ 255) (hf : f (c.rem.toNat + cc / 256) = c.rem.toNat + cc / 256 + δ)
+    (hext : c.ext + 1 < 4294967296) :
+    carryOut (twinR δ c) cc = twinB f (carryOut c cc) ∧ 1 ≤ (carryOut c cc).offs := by
   have hbl : 0 < c.buf.length := by omega
   have hW : ∀ a : Nat, a ≤ 255 → writeByte c a = { c with buf := c.buf.set 0 a, offs := 1 } := by
     intro a ha
@@ -245,11 +246,11 @@ theorem carryOut_twinR (δ : Nat) (c : Enc) (cc : Nat) (hcc : cc ≠ 255) (ho : 
     (writeByte c (c.rem.toNat + cc / 256)) hW1
   have hF := carryOut_rem c cc hcc hr
   refine ⟨?_, by rw [hF]; exact f3⟩
-  have hRHS : twinB δ (carryOut c cc) = setRem ((cc % 256 : Nat) : Int)
+  have hRHS : twinB f (carryOut c cc) = setRem ((cc % 256 : Nat) : Int)
       (flushExt ((255 + cc / 256) % 256) c.ext (writeByte c (c.rem.toNat + cc / 256 + δ))) := by
     rw [hF]
     unfold twinB
-    rw [setRem_buf, f2, hW0, setBuf0_setRem, ← f1, ← hWW _ _ (by omega) (by omega)]
+    rw [setRem_buf, f2, hW0, hf, setBuf0_setRem, ← f1, ← hWW _ _ (by omega) (by omega)]
   rw [hRHS]
   by_cases hcor : c.rem.toNat + δ = 255
   · -- the shifted digit is 0xFF: it is counted in `ext`
@@ -290,19 +291,19 @@ theorem ctx_ext {a b : Enc} (h1 : a.buf = b.buf) (h2 : a.storage = b.storage) (h
   subst h1 h2 h3 h4 h5 h6 h7 h8 h9 h10 h11 h12
   rfl
 
-theorem twinB_nsUpd (δ v r n : Nat) (x : Enc) : twinB δ (nsUpd v r n x) = nsUpd v r n (twinB δ x) := rfl
+theorem twinB_nsUpd (f : Nat → Nat) (v r n : Nat) (x : Enc) : twinB f (nsUpd v r n x) = nsUpd v r n (twinB f x) := rfl
 theorem twinR_nsUpd (δ v r n : Nat) (x : Enc) : twinR δ (nsUpd v r n x) = nsUpd v r n (twinR δ x) := by
   unfold twinR
   show (if x.rem.toNat + δ = 255 then _ else _) = _
   split <;> rfl
 
-theorem twinB_fields (δ : Nat) (c : Enc) : (twinB δ c).val = c.val ∧ (twinB δ c).rng = c.rng ∧
-    (twinB δ c).nbitsTotal = c.nbitsTotal := ⟨rfl, rfl, rfl⟩
+theorem twinB_fields (f : Nat → Nat) (c : Enc) : (twinB f c).val = c.val ∧ (twinB f c).rng = c.rng ∧
+    (twinB f c).nbitsTotal = c.nbitsTotal := ⟨rfl, rfl, rfl⟩
 theorem twinR_fields (δ : Nat) (c : Enc) : (twinR δ c).val = c.val ∧ (twinR δ c).rng = c.rng ∧
     (twinR δ c).nbitsTotal = c.nbitsTotal := by
   unfold twinR; split <;> exact ⟨rfl, rfl, rfl⟩
 
-theorem twin_B (k w : Nat) (c : Enc) (ho : 1 ≤ c.offs) : twin k w c = twinB (dlt k w) c := by
+theorem twin_B (k w : Nat) (c : Enc) (ho : 1 ≤ c.offs) : twin k w c = twinB (fun b => patchByte b w k % 256) c := by
   unfold twin; rw [if_pos ho]
 theorem twin_R (k w : Nat) (c : Enc) (ho : c.offs = 0) (hr : 0 ≤ c.rem) : twin k w c = twinR (dlt k w) c := by
   unfold twin; rw [if_neg (by omega), if_pos hr]
@@ -323,15 +324,21 @@ theorem kfacts (k w : Nat) (hk1 : 1 ≤ k) (hk8 : k ≤ 8) (hw : w < 2 ^ k) :
   have h3 : 2 ^ (8 - k) ≤ 2 ^ 7 := Nat.pow_le_pow_right (by decide) (by omega)
   refine ⟨e1, by unfold dlt; rw [e1, Nat.mul_assoc], by unfold dlt; exact h2, Nat.pow_pos (by decide), h3⟩
 
-theorem twinV_nsUpd_ext (D v r n : Nat) (x y : Enc) (h1 : x.buf = y.buf) (h2 : x.storage = y.storage)
-    (h3 : x.endOffs = y.endOffs) (h4 : x.endWindow = y.endWindow) (h5 : x.nendBits = y.nendBits) (h7 : x.offs = y.offs)
-    (h10 : x.ext = y.ext) (h11 : x.rem = y.rem) (h12 : x.error = y.error) : nsUpd v r n x = nsUpd v r n y :=
-  ctx_ext h1 h2 h3 h4 h5 rfl h7 rfl rfl h10 h11 h12
+theorem twinV_fields (D : Nat) (c : Enc) : (twinV D c).val = c.val + D ∧ (twinV D c).rng = c.rng ∧
+    (twinV D c).nbitsTotal = c.nbitsTotal ∧ (twinV D c).ext = c.ext ∧ (twinV D c).rem = c.rem := ⟨rfl, rfl, rfl, rfl, rfl⟩
+theorem nsUpd_twinV (D v r n : Nat) (y : Enc) : nsUpd v r n (twinV D y) = nsUpd v r n y := rfl
+theorem setExt_twinV (D e : Nat) (y : Enc) : setExt e (twinV D y) = twinV D (setExt e y) := rfl
+theorem setRem_twinV (D : Nat) (r : Int) (y : Enc) : setRem r (twinV D y) = twinV D (setRem r y) := rfl
+theorem setRem_self (c : Enc) (r : Int) (h : c.rem = r) : setRem r c = c := by subst h; rfl
+theorem setRem_setExt (c : Enc) (r : Int) (e : Nat) : setRem r (setExt e c) = setExt e (setRem r c) := rfl
+
+theorem arithA (δ v : Nat) : (v + δ * 8388608) / 8388608 = v / 8388608 + δ := by omega
+theorem arithB (δ v : Nat) : (v + δ * 8388608) * 256 % 2147483648 = v * 256 % 2147483648 := by omega
 
 /-- phase V: the first digit leaves `val` -/
-theorem twin_normStep_V (δ : Nat) (c : Enc) (hQ : c.val / 8388608 + δ ≤ 255) (ho0 : c.offs = 0) (hrem : c.rem = -1)
-    (he0 : c.ext = 0) :
-    normStep (twinV (δ * 8388608) c) = twinR δ (normStep c) := by
+theorem twin_normStep_V (δ D : Nat) (c : Enc) (hD : D = δ * 8388608) (hQ : c.val / 8388608 + δ ≤ 255)
+    (hQ2 : c.val / 8388608 < 128) (ho0 : c.offs = 0) (hrem : c.rem = -1) (he0 : c.ext = 0) :
+    normStep (twinV D c) = twinR δ (normStep c) := by
   have hr : ¬ 0 ≤ c.rem := by omega
   have hcc255 : c.val / 8388608 ≠ 255 := by omega
   have hns : normStep c = nsUpd (c.val * 256 % 2147483648) (u32 (c.rng * 256)) (c.nbitsTotal + 8)
@@ -340,31 +347,25 @@ theorem twin_normStep_V (δ : Nat) (c : Enc) (hQ : c.val / 8388608 + δ ≤ 255)
     have : c.val / 8388608 % 256 = c.val / 8388608 := Nat.mod_eq_of_lt (by omega)
     rw [this]
   rw [hns, twinR_nsUpd, normStep_eq]
-  have ev : (twinV (δ * 8388608) c).val = c.val + δ * 8388608 := rfl
-  have er : (twinV (δ * 8388608) c).rng = c.rng := rfl
-  have en : (twinV (δ * 8388608) c).nbitsTotal = c.nbitsTotal := rfl
-  have ecc : (c.val + δ * 8388608) / 8388608 = c.val / 8388608 + δ := by omega
-  have evv : (c.val + δ * 8388608) * 256 % 2147483648 = c.val * 256 % 2147483648 := by omega
-  rw [ev, er, en, ecc, evv]
+  obtain ⟨ev, er, en, e0, hr'⟩ := twinV_fields D c
+  rw [ev, er, en, hD, arithA, arithB, ← hD]
   unfold twinR
-  rw [setRem_rem, setRem_ext]
-  have et : ((c.val / 8388608 : Nat) : Int).toNat = c.val / 8388608 := by omega
-  rw [et]
-  have e0 : (twinV (δ * 8388608) c).ext = 0 := he0
+  rw [setRem_rem, setRem_ext, Int.toNat_natCast]
+  rw [he0] at e0
   by_cases hcor : c.val / 8388608 + δ = 255
-  · rw [if_pos hcor, hcor, carryOut_255', e0, he0]
-    exact twinV_nsUpd_ext _ _ _ _ _ _ rfl rfl rfl rfl rfl rfl rfl hrem rfl
-  · rw [if_neg hcor, carryOut_norem _ _ hcor (show ¬ 0 ≤ (twinV (δ * 8388608) c).rem from hr), e0, flushExt_zero]
+  · rw [if_pos hcor, hcor, carryOut_255', e0, he0, setExt_twinV, nsUpd_twinV, setExt_setRem, setRem_setRem,
+      ← setExt_setRem, setRem_self c (-1) hrem]
+  · rw [if_neg hcor, carryOut_norem _ _ hcor (by rw [hr']; exact hr), e0, flushExt_zero]
     have : (c.val / 8388608 + δ) % 256 = c.val / 8388608 + δ := Nat.mod_eq_of_lt (by omega)
-    rw [this]
-    exact twinV_nsUpd_ext _ _ _ _ _ _ rfl rfl rfl rfl rfl rfl rfl rfl rfl
+    rw [this, setRem_twinV, nsUpd_twinV, setRem_setRem]
 
 /-- phase R -/
-theorem twin_normStep_R (δ : Nat) (c : Enc) (ho0 : c.offs = 0) (hr : 0 ≤ c.rem) (hlen : c.storage ≤ c.buf.length)
-    (hδ : c.rem.toNat + c.val / 8388608 / 256 + δ ≤ 255) (hext : c.ext + 1 < 4294967296)
+theorem twin_normStep_R (δ : Nat) (f : Nat → Nat) (c : Enc) (ho0 : c.offs = 0) (hr : 0 ≤ c.rem) (hlen : c.storage ≤ c.buf.length)
+    (hδ : c.rem.toNat + c.val / 8388608 / 256 + δ ≤ 255)
+    (hf : f (c.rem.toNat + c.val / 8388608 / 256) = c.rem.toNat + c.val / 8388608 / 256 + δ) (hext : c.ext + 1 < 4294967296)
     (herr : (normStep c).error = 0) :
     (c.val / 8388608 = 255 → normStep (twinR δ c) = twinR δ (normStep c) ∧ (normStep c).offs = 0 ∧ 0 ≤ (normStep c).rem) ∧
-    (c.val / 8388608 ≠ 255 → normStep (twinR δ c) = twinB δ (normStep c) ∧ 1 ≤ (normStep c).offs) := by
+    (c.val / 8388608 ≠ 255 → normStep (twinR δ c) = twinB f (normStep c) ∧ 1 ≤ (normStep c).offs) := by
   obtain ⟨b1, b2, b3⟩ := twinR_fields δ c
   constructor
   · intro h255
@@ -388,7 +389,7 @@ theorem twin_normStep_R (δ : Nat) (c : Enc) (ho0 : c.offs = 0) (hr : 0 ≤ c.re
         apply Classical.byContradiction; intro hne
         exact flushExt_error_mono _ _ _ hne e1
       exact (writeByte_ok e2).2
-    obtain ⟨a1, a2⟩ := carryOut_twinR δ c (c.val / 8388608) h255 ho0 hr hsp hlen hδ hext
+    obtain ⟨a1, a2⟩ := carryOut_twinR δ f c (c.val / 8388608) h255 ho0 hr hsp hlen hδ hf hext
     refine ⟨?_, by rw [normStep_eq]; exact a2⟩
     rw [normStep_eq (twinR δ c), b1, b2, b3, a1, normStep_eq, twinB_nsUpd]
 
@@ -400,10 +401,10 @@ theorem twin_normStep (k w : Nat) (c : Enc) (hk1 : 1 ≤ k) (hk8 : k ≤ 8) (hw 
   have hcc : c.val / 8388608 < 512 := by have := pre.sum_le; have := pre.rng_pos; omega
   by_cases ho : 1 ≤ c.offs
   · -- B
-    obtain ⟨a1, a2⟩ := carryOut_twinB (dlt k w) c (c.val / 8388608) ho
+    obtain ⟨a1, a2⟩ := carryOut_twinB (fun b => patchByte b w k % 256) c (c.val / 8388608) ho
     rw [twin_B k w c ho, twin_B k w (normStep c) (by rw [normStep_eq]; exact a2)]
     rw [normStep_eq, normStep_eq]
-    obtain ⟨b1, b2, b3⟩ := twinB_fields (dlt k w) c
+    obtain ⟨b1, b2, b3⟩ := twinB_fields (fun b => patchByte b w k % 256) c
     rw [b1, b2, b3, a1, twinB_nsUpd]
   · have ho0 : c.offs = 0 := by omega
     obtain ⟨fV, fR⟩ := cell0_facts k c hk1 hc ho0 pre.rng_pos
@@ -415,7 +416,17 @@ theorem twin_normStep (k w : Nat) (c : Enc) (hk1 : 1 ≤ k) (hk8 : k ≤ 8) (hw 
         · have := r2 hv; omega
         · have : c.val / 8388608 / 256 = 0 := by omega
           omega
-      obtain ⟨t1, t2⟩ := twin_normStep_R (dlt k w) c ho0 hr pre.wf.storage_le hδ hext herr
+      have ha : c.rem.toNat + c.val / 8388608 / 256 < 2 ^ (8 - k) := by
+        by_cases hv : 2147483648 ≤ c.val
+        · have := r2 hv; omega
+        · have : c.val / 8388608 / 256 = 0 := by omega
+          omega
+      have hf : (fun b => patchByte b w k % 256) (c.rem.toNat + c.val / 8388608 / 256) =
+          c.rem.toNat + c.val / 8388608 / 256 + dlt k w := by
+        obtain ⟨p1, p2⟩ := patchByte_eq (c.rem.toNat + c.val / 8388608 / 256) w k hk8 hw
+        show patchByte _ w k % 256 = _
+        rw [p1, Nat.mod_eq_of_lt p2, Nat.mod_eq_of_lt ha]; rfl
+      obtain ⟨t1, t2⟩ := twin_normStep_R (dlt k w) (fun b => patchByte b w k % 256) c ho0 hr pre.wf.storage_le hδ hf hext herr
       rw [twin_R k w c ho0 hr]
       by_cases h255 : c.val / 8388608 = 255
       · obtain ⟨u1, u2, u3⟩ := t1 h255
@@ -428,7 +439,7 @@ theorem twin_normStep (k w : Nat) (c : Enc) (hk1 : 1 ≤ k) (hk8 : k ≤ 8) (hw 
       have hrp := pre.rng_pos
       rw [q1] at hvr
       have hQ : c.val / 8388608 + dlt k w ≤ 255 := by omega
-      rw [twin_V k w c ho0 hr, q2, twin_normStep_V (dlt k w) c hQ ho0 hrem he0]
+      rw [twin_V k w c ho0 hr, twin_normStep_V (dlt k w) (w * 2 ^ (31 - k)) c q2 hQ (by omega) ho0 hrem he0]
       have hns0 : (normStep c).offs = 0 ∧ 0 ≤ (normStep c).rem := by
         rw [normStep_eq, carryOut_norem _ _ (by omega) hr]
         refine ⟨?_, ?_⟩
@@ -437,5 +448,396 @@ theorem twin_normStep (k w : Nat) (c : Enc) (hk1 : 1 ≤ k) (hk8 : k ≤ 8) (hw 
         · show (0 : Int) ≤ ((c.val / 8388608 % 256 : Nat) : Int)
           omega
       rw [twin_R k w (normStep c) hns0.1 hns0.2]
+
+/-! ### Normalisation, primitive operations, runs -/
+
+theorem twin_fields (k w : Nat) (c : Enc) : (twin k w c).rng = c.rng ∧ (twin k w c).nbitsTotal = c.nbitsTotal ∧
+    (twin k w c).error = c.error ∧ (twin k w c).offs = c.offs ∧ (twin k w c).endOffs = c.endOffs ∧
+    (twin k w c).storage = c.storage := by
+  unfold twin
+  split
+  · exact ⟨rfl, rfl, rfl, rfl, rfl, rfl⟩
+  · split
+    · unfold twinR; split <;> exact ⟨rfl, rfl, rfl, rfl, rfl, rfl⟩
+    · exact ⟨rfl, rfl, rfl, rfl, rfl, rfl⟩
+
+theorem twinV_encSub (D : Nat) (c : Enc) (r a b : Nat) (first : Bool) :
+    encSub (twinV D c) r a b first = twinV D (encSub c r a b first) := by
+  unfold encSub
+  cases first with
+  | true => rfl
+  | false =>
+    simp only [Bool.false_eq_true, if_false]
+    obtain ⟨ev, er, _, _, _⟩ := twinV_fields D c
+    apply ctx_ext <;> try rfl
+    show c.val + D + (c.rng - r * a) = c.val + (c.rng - r * a) + D
+    omega
+
+theorem twin_encSub (k w : Nat) (c : Enc) (r a b : Nat) (first : Bool) :
+    encSub (twin k w c) r a b first = twin k w (encSub c r a b first) := by
+  have ho : (encSub c r a b first).offs = c.offs := by unfold encSub; split <;> rfl
+  have hr : (encSub c r a b first).rem = c.rem := by unfold encSub; split <;> rfl
+  by_cases h1 : 1 ≤ c.offs
+  · rw [twin_B k w c h1, twin_B k w _ (by rw [ho]; exact h1)]
+    unfold encSub; split <;> rfl
+  · by_cases h2 : 0 ≤ c.rem
+    · rw [twin_R k w c (by omega) h2, twin_R k w _ (by rw [ho]; omega) (by rw [hr]; exact h2)]
+      unfold encSub twinR
+      cases first with
+      | true => simp only [if_true]; split <;> rfl
+      | false => simp only [Bool.false_eq_true, if_false]; split <;> rfl
+    · rw [twin_V k w c (by omega) h2, twin_V k w _ (by rw [ho]; omega) (by rw [hr]; exact h2)]
+      exact twinV_encSub _ c r a b first
+
+theorem twin_encNormalize (k w : Nat) (hk1 : 1 ≤ k) (hk8 : k ≤ 8) (hw : w < 2 ^ k) (c : Enc) (pre : EncPre c)
+    (hc : Cell k 0 c) (hn : (encNormalize c).nbitsTotal < 4294967296) (herr : (encNormalize c).error = 0) :
+    encNormalize (twin k w c) = twin k w (encNormalize c) := by
+  induction hm : 8388609 - c.rng using Nat.strongRecOn generalizing c with
+  | _ m ih =>
+    have hrng := (twin_fields k w c).1
+    by_cases hcond : 0 < c.rng ∧ c.rng ≤ 8388608
+    · rw [encNormalize_step c hcond] at hn herr ⊢
+      rw [encNormalize_step (twin k w c) (by rw [hrng]; exact hcond)]
+      have hnb := encNormalize_nbits_ge (normStep c)
+      have hnb2 : (normStep c).nbitsTotal = c.nbitsTotal + 8 := rfl
+      have herr1 : (normStep c).error = 0 := by
+        apply Classical.byContradiction; intro hne
+        exact encNormalize_error_mono _ hne herr
+      obtain ⟨_, s1, _, s3, _⟩ := normStep_spec c pre hcond.2 (by omega) herr1
+      rw [twin_normStep k w c hk1 hk8 hw pre hc (by omega) herr1]
+      exact ih (8388609 - (normStep c).rng) (by rw [s3]; omega) (normStep c) s1
+        (cell_normStep k 0 c pre hcond.2 (by omega) herr1 hc) hn herr rfl
+    · rw [encNormalize_done c hcond, encNormalize_done (twin k w c) (by rw [hrng]; exact hcond)]
+
+/-- range-coded operations: `ec_encode`, `ec_encode_bin`, `ec_enc_bit_logp`, `ec_enc_icdf(16)` -/
+def Op.isPrim : Op → Bool
+  | .encode _ _ _ => true
+  | .encodeBin _ _ _ => true
+  | .bitLogp _ _ => true
+  | .icdf _ _ _ => true
+  | .icdf16 _ _ _ => true
+  | _ => false
+
+theorem Op.isPrim_sub {op : Op} (h : op.isPrim = true) (rng : Nat) : ∃ r a b first, op.sub rng = some (r, a, b, first) := by
+  cases op with
+  | encode fl fh ft => exact ⟨_, _, _, _, rfl⟩
+  | encodeBin fl fh nb => exact ⟨_, _, _, _, rfl⟩
+  | bitLogp v logp =>
+    by_cases hv : v ≠ 0
+    · exact ⟨_, _, _, _, by simp only [Op.sub]; rw [if_pos hv]⟩
+    · exact ⟨_, _, _, _, by simp only [Op.sub]; rw [if_neg hv]⟩
+  | icdf s tbl ftb => exact ⟨_, _, _, _, rfl⟩
+  | icdf16 s tbl ftb => exact ⟨_, _, _, _, rfl⟩
+  | uint v ft => simp [Op.isPrim] at h
+  | bits v n => simp [Op.isPrim] at h
+  | patchInitial v n => simp [Op.isPrim] at h
+  | shrink size => simp [Op.isPrim] at h
+
+theorem Op.isPrim_legalAt {op : Op} (h : op.isPrim = true) (c : Enc) : op.LegalAt c ↔ op.Legal := by
+  cases op <;> first | rfl | simp [Op.isPrim] at h
+
+theorem twin_encOp (k w : Nat) (hk1 : 1 ≤ k) (hk8 : k ≤ 8) (hw : w < 2 ^ k) (c : Enc) (op : Op) (hp : op.isPrim = true)
+    (ri : RunInv c) (ri' : RunInv (twin k w c)) (hc : Cell k 0 c) (hl : op.Legal)
+    (hn : (encOp c op).nbitsTotal < 4294967296) (herr : (encOp c op).error = 0) :
+    encOp (twin k w c) op = twin k w (encOp c op) ∧ RunInv (encOp c op) ∧ RunInv (encOp (twin k w c) op) ∧
+    Cell k 0 (encOp c op) := by
+  obtain ⟨r, a, b, first, hsub⟩ := Op.isPrim_sub hp c.rng
+  have hrng := (twin_fields k w c).1
+  obtain ⟨ok, heq⟩ := encOp_sub c op ri.inv hl hsub
+  obtain ⟨_, heq'⟩ := encOp_sub (twin k w c) op ri'.inv hl (by rw [hrng]; exact hsub)
+  obtain ⟨pre, _, _⟩ := encSub_spec c r a b first ri.inv ok
+  have hcs := cell_encSub k 0 c r a b first ri.inv ok hc
+  have key : encOp (twin k w c) op = twin k w (encOp c op) := by
+    rw [heq', heq, twin_encSub]
+    rw [heq] at hn herr
+    exact twin_encNormalize k w hk1 hk8 hw _ pre hcs hn herr
+  have s1 := step_prim c op ri hl hsub hn herr
+  have f := twin_fields k w (encOp c op)
+  have s2 := step_prim (twin k w c) op ri' hl (by rw [hrng]; exact hsub) (by rw [key, f.2.1]; exact hn)
+    (by rw [key, f.2.2.1]; exact herr)
+  exact ⟨key, s1.run, s2.run, cell_prim k 0 c op ri.inv hl hsub hn herr hc⟩
+
+theorem twin_run (k w : Nat) (hk1 : 1 ≤ k) (hk8 : k ≤ 8) (hw : w < 2 ^ k) (ops : List Op) : ∀ (c : Enc),
+    RunInv c → RunInv (twin k w c) → Cell k 0 c → (∀ op ∈ ops, op.isPrim = true ∧ op.Legal) →
+    (encRun c ops).nbitsTotal < 4294967296 → (encRun c ops).error = 0 →
+    encRun (twin k w c) ops = twin k w (encRun c ops) ∧ RunInv (encRun c ops) ∧ RunInv (encRun (twin k w c) ops) ∧
+    Cell k 0 (encRun c ops) := by
+  induction ops with
+  | nil => intro c ri ri' hc _ _ _; exact ⟨rfl, ri, ri', hc⟩
+  | cons op ops ih =>
+    intro c ri ri' hc hall hn herr
+    have herr1 : (encOp c op).error = 0 := by
+      apply Classical.byContradiction; intro hne
+      exact encRun_error_mono ops _ hne herr
+    have hn1 : (encOp c op).nbitsTotal < 4294967296 := Nat.lt_of_le_of_lt (encRun_nbits_mono ops _) hn
+    obtain ⟨hp, hl⟩ := hall op (List.mem_cons_self ..)
+    obtain ⟨a1, a2, a3, a4⟩ := twin_encOp k w hk1 hk8 hw c op hp ri ri' hc hl hn1 herr1
+    simp only [encRun]
+    rw [a1]
+    rw [a1] at a3
+    exact ih (encOp c op) a2 a3 a4 (fun o ho => hall o (List.mem_cons_of_mem _ ho)) hn herr
+
+/-! ### The patch -/
+
+/-- After the patch the first encoder is in the second one's state, up to the representation of a pending 0xFF. -/
+theorem patch_twin (k w : Nat) (hk1 : 1 ≤ k) (hk8 : k ≤ 8) (hw : w < 2 ^ k) (c : Enc) (ri : RunInv c) (hc : Cell k 0 c) :
+    canon (encPatchInitialBits c w k) = canon (twin k w c) := by
+  obtain ⟨q1, q2, q3, q4, q5⟩ := kfacts k w hk1 hk8 hw
+  by_cases ho : c.offs > 0
+  · have e : encPatchInitialBits c w k = twinB (fun b => patchByte b w k % 256) c := by
+      unfold encPatchInitialBits; simp only [if_pos ho]; rfl
+    rw [e, twin_B k w c ho]
+  · have ho0 : c.offs = 0 := by omega
+    obtain ⟨fV, fR⟩ := cell0_facts k c hk1 hc ho0 ri.inv.rng_pos
+    by_cases hr : c.rem ≥ 0
+    · obtain ⟨r1, _⟩ := fR hr
+      obtain ⟨pb1, pb2⟩ := patchByte_eq c.rem.toNat w k hk8 hw
+      have e : encPatchInitialBits c w k = setRem ((c.rem.toNat + dlt k w : Nat) : Int) c := by
+        unfold encPatchInitialBits; simp only [if_neg ho, if_pos hr]
+        rw [pb1, Nat.mod_eq_of_lt r1]; rfl
+      rw [e, twin_R k w c ho0 hr]
+      unfold twinR
+      by_cases hcor : c.rem.toNat + dlt k w = 255
+      · rw [if_pos hcor, hcor]
+        have h1 : canon (setRem ((255 : Nat) : Int) c) = setRem (-1) (setExt (u32 (c.ext + 1)) c) := by
+          unfold canon; rw [if_pos (by rfl)]; rfl
+        rw [h1, canon_of_ne (by show (-1 : Int) ≠ 255; decide)]
+      · rw [if_neg hcor]
+    · obtain ⟨he0, hvr⟩ := fV (by omega)
+      rw [q1] at hvr
+      have hrp := ri.inv.rng_pos
+      have hpow : 2 ^ k * 2 ^ (31 - k) = 2147483648 := by
+        rw [← Nat.pow_add]; have : k + (31 - k) = 31 := by omega
+        rw [this]
+      have hdiv : 2147483648 / 2 ^ k = 2 ^ (31 - k) :=
+        Nat.div_eq_of_eq_mul_right (Nat.pow_pos (by decide)) hpow.symm
+      have e31 : 23 + (8 - k) = 31 - k := by omega
+      have hvtop : (w + 1) * 2 ^ (31 - k) ≤ 2147483648 := by
+        rw [← hpow]; exact Nat.mul_le_mul_right _ hw
+      rw [Nat.add_mul, Nat.one_mul] at hvtop
+      have hval : c.val < 2 ^ (31 - k) := by rw [q1]; omega
+      have e : encPatchInitialBits c w k = twinV (w * 2 ^ (31 - k)) c := by
+        unfold encPatchInitialBits
+        have hrz : c.rng ≤ 2 ^ (31 - k) := by rw [q1]; omega
+        simp only [if_neg ho, if_neg hr, if_neg (show ¬ c.ext > 0 by omega), hdiv, if_pos hrz, e31]
+        have h0 : c.val / 2147483648 = 0 := Nat.div_eq_of_lt (by omega)
+        have hsh : w <<< (31 - k) < 4294967296 := by rw [Nat.shiftLeft_eq]; omega
+        rw [h0, Nat.zero_mul, Nat.add_zero, u32_of_lt hsh, Nat.mod_eq_of_lt hval, or_shift _ _ _ hval]
+        rfl
+      rw [e, twin_V k w c ho0 hr]
+
+/-! ### The start: `k ≤ 7` single bits from `ec_enc_init` -/
+
+/-- state after `j ≤ 7` equiprobable bits of value `v` (no normalisation has happened yet) -/
+def bitsState (buf : List Nat) (size j v : Nat) : Enc := setVR (encInit buf size) (v * 2 ^ (31 - j)) (2 ^ (31 - j))
+
+theorem setVR_setVR (c : Enc) (a b x y : Nat) : setVR (setVR c a b) x y = setVR c x y := rfl
+theorem setVR_val (c : Enc) (a b : Nat) : (setVR c a b).val = a := rfl
+theorem setVR_rng (c : Enc) (a b : Nat) : (setVR c a b).rng = b := rfl
+
+theorem bit_step (buf : List Nat) (size j v b : Nat) (hj : j ≤ 6) (hv : v < 2 ^ j) :
+    encOp (bitsState buf size j v) (.bitLogp b 1) = bitsState buf size (j + 1) (2 * v + (if b ≠ 0 then 1 else 0)) := by
+  have e1 : 31 - j = (31 - (j + 1)) + 1 := by omega
+  have hR : 2 ^ (31 - j) = 2 * 2 ^ (31 - (j + 1)) := by rw [e1, Nat.pow_succ, Nat.mul_comm]
+  have hR'lo : 16777216 ≤ 2 ^ (31 - (j + 1)) := by
+    have : (16777216 : Nat) = 2 ^ 24 := by decide
+    rw [this]; exact Nat.pow_le_pow_right (by decide) (by omega)
+  have hR'hi : 2 ^ (31 - (j + 1)) ≤ 1073741824 := by
+    have : (1073741824 : Nat) = 2 ^ 30 := by decide
+    rw [this]; exact Nat.pow_le_pow_right (by decide) (by omega)
+  have hvR : (v + 1) * 2 ^ (31 - j) ≤ 2147483648 := by
+    have h1 : (v + 1) * 2 ^ (31 - j) ≤ 2 ^ j * 2 ^ (31 - j) := Nat.mul_le_mul_right _ hv
+    have h2 : 2 ^ j * 2 ^ (31 - j) = 2147483648 := by
+      rw [← Nat.pow_add]; have : j + (31 - j) = 31 := by omega
+      rw [this]
+    omega
+  show encBitLogp (bitsState buf size j v) b 1 = _
+  rw [encBitLogp_form]
+  unfold bitsState
+  rw [setVR_val, setVR_rng, setVR_setVR, Nat.pow_one, hR]
+  rw [hR, Nat.add_mul, Nat.one_mul] at hvR
+  generalize 2 ^ (31 - (j + 1)) = R' at *
+  have ed : 2 * R' / 2 = R' := by omega
+  rw [ed, sub32_of_le (by omega) (by omega)]
+  have es : 2 * R' - R' = R' := by omega
+  rw [es]
+  have hnd : ¬ (0 < R' ∧ R' ≤ 8388608) := by omega
+  by_cases hb : b ≠ 0
+  · rw [if_pos hb, if_pos hb, if_pos hb, add32_of_lt (by omega), encNormalize_done _ (by rw [setVR_rng]; exact hnd)]
+    have : v * (2 * R') + R' = (2 * v + 1) * R' := by
+      rw [Nat.add_mul, Nat.one_mul, Nat.mul_left_comm, Nat.mul_assoc]
+    rw [this]
+  · rw [if_neg hb, if_neg hb, if_neg hb, encNormalize_done _ (by rw [setVR_rng]; exact hnd)]
+    have : v * (2 * R') = (2 * v + 0) * R' := by
+      rw [Nat.add_zero, Nat.mul_left_comm, Nat.mul_assoc]
+    rw [this]
+
+theorem bits_chain (buf : List Nat) (size : Nat) : ∀ (n j v w : Nat), j + n ≤ 7 → v < 2 ^ j → w < 2 ^ n →
+    encRun (bitsState buf size j v) (bitsOps w n) = bitsState buf size (j + n) (v * 2 ^ n + w)
+  | 0, j, v, w, _, _, hw => by
+    have : w = 0 := by simpa using hw
+    subst this
+    simp only [bitsOps, encRun, Nat.pow_zero, Nat.mul_one, Nat.add_zero]
+  | n + 1, j, v, w, hj, hv, hw => by
+    have hP : 0 < 2 ^ n := Nat.pow_pos (by decide)
+    have hq : w / 2 ^ n < 2 := by
+      rw [Nat.div_lt_iff_lt_mul hP, Nat.mul_comm, ← Nat.pow_succ]; exact hw
+    have hb : (if w / 2 ^ n % 2 ≠ 0 then 1 else 0) = w / 2 ^ n := by
+      generalize w / 2 ^ n = q at hq ⊢
+      by_cases h : q % 2 ≠ 0
+      · rw [if_pos h]; omega
+      · rw [if_neg h]; omega
+    simp only [bitsOps, encRun]
+    rw [bit_step buf size j v _ (by omega) hv, hb]
+    have hv' : 2 * v + w / 2 ^ n < 2 ^ (j + 1) := by rw [Nat.pow_succ]; omega
+    rw [bits_chain buf size n (j + 1) (2 * v + w / 2 ^ n) (w % 2 ^ n) (by omega) hv' (Nat.mod_lt _ hP)]
+    have e1 : j + 1 + n = j + (n + 1) := by omega
+    have e2 : (2 * v + w / 2 ^ n) * 2 ^ n + w % 2 ^ n = v * 2 ^ (n + 1) + w := by
+      have := Nat.div_add_mod w (2 ^ n)
+      rw [Nat.add_mul, Nat.pow_succ, Nat.mul_comm 2 v, Nat.mul_assoc, Nat.mul_comm 2 (2 ^ n), Nat.mul_comm (w / 2 ^ n)]
+      omega
+    rw [e1, e2]
+
+theorem encInit_bitsState (buf : List Nat) (size : Nat) : encInit buf size = bitsState buf size 0 0 := by
+  unfold bitsState setVR encInit
+  apply ctx_ext <;> first | rfl | (simp only [Nat.zero_mul]) | (show (2147483648 : Nat) = 2 ^ (31 - 0); decide)
+
+theorem prim_legalRun (ops : List Op) (h : ∀ op ∈ ops, op.isPrim = true ∧ op.Legal) : ∀ (c : Enc), LegalRun c ops := by
+  induction ops with
+  | nil => intro _; trivial
+  | cons op ops ih =>
+    intro c
+    obtain ⟨hp, hl⟩ := h op (List.mem_cons_self ..)
+    exact ⟨(Op.isPrim_legalAt hp c).mpr hl, ih (fun o ho => h o (List.mem_cons_of_mem _ ho)) _⟩
+
+theorem bitsOps_prim : ∀ (w n : Nat), ∀ op ∈ bitsOps w n, op.isPrim = true ∧ op.Legal
+  | w, 0 => by intro op h; simp [bitsOps] at h
+  | w, n + 1 => by
+    intro op h
+    simp only [bitsOps, List.mem_cons] at h
+    rcases h with rfl | h
+    · exact ⟨rfl, Nat.le_refl 1, by decide⟩
+    · exact bitsOps_prim (w % 2 ^ n) n op h
+
+theorem placeholder_state (buf : List Nat) (size k : Nat) (hk1 : 1 ≤ k) (hk7 : k ≤ 7) :
+    encOp (encInit buf size) (.encodeBin 0 1 k) = bitsState buf size k 0 := by
+  have hpow : 2 ^ k * 2 ^ (31 - k) = 2147483648 := by
+    rw [← Nat.pow_add]; have : k + (31 - k) = 31 := by omega
+    rw [this]
+  have hdiv : 2147483648 / 2 ^ k = 2 ^ (31 - k) :=
+    Nat.div_eq_of_eq_mul_right (Nat.pow_pos (by decide)) hpow.symm
+  have hRlo : 16777216 ≤ 2 ^ (31 - k) := by
+    have : (16777216 : Nat) = 2 ^ 24 := by decide
+    rw [this]; exact Nat.pow_le_pow_right (by decide) (by omega)
+  have hk2 : 2 ≤ 2 ^ k := by
+    have : (2 : Nat) = 2 ^ 1 := by decide
+    conv => lhs; rw [this]
+    exact Nat.pow_le_pow_right (by decide) hk1
+  have hk128 : 2 ^ k ≤ 128 := by
+    have : (128 : Nat) = 2 ^ 7 := by decide
+    rw [this]; exact Nat.pow_le_pow_right (by decide) hk7
+  show encodeBin (encInit buf size) 0 1 k = _
+  rw [encodeBin_form]
+  have ev : (encInit buf size).val = 0 := rfl
+  have er : (encInit buf size).rng = 2147483648 := rfl
+  rw [ev, er, if_neg (by decide), if_neg (by decide), hdiv]
+  unfold bitsState
+  rw [Nat.zero_mul]
+  have hsub : 2 ^ k * 2 ^ (31 - k) - 2 ^ (31 - k) = 2 ^ (31 - k) * (2 ^ k - 1) := by
+    rw [Nat.mul_sub, Nat.mul_one, Nat.mul_comm]
+  generalize 2 ^ (31 - k) = R at *
+  generalize 2 ^ k = K at *
+  have hRle : R ≤ 2147483648 := by rw [← hpow]; exact Nat.le_mul_of_pos_left _ (by omega)
+  have h1 : u32 K = K := u32_of_lt (by omega)
+  have h2 : sub32 K 1 = K - 1 := sub32_of_le (by omega) (by omega)
+  have h3 : mul32 R (K - 1) = R * (K - 1) := mul32_of_lt (by rw [← hsub]; omega)
+  have h4 : sub32 2147483648 (R * (K - 1)) = 2147483648 - R * (K - 1) := sub32_of_le (by omega) (by rw [← hsub]; omega)
+  rw [h1, h2, h3, h4, ← hsub, hpow]
+  have : 2147483648 - (2147483648 - R) = R := by omega
+  rw [this, encNormalize_done _ (by rw [setVR_rng]; omega)]
+
+/-- coding the true bits from the start: the state is the twin of the placeholder state -/
+theorem twin_start (buf : List Nat) (size k w : Nat) (hk1 : 1 ≤ k) (hk7 : k ≤ 7) (hw : w < 2 ^ k) :
+    encRun (encInit buf size) (bitsOps w k) = twin k w (encOp (encInit buf size) (.encodeBin 0 1 k)) := by
+  rw [placeholder_state buf size k hk1 hk7, encInit_bitsState,
+    bits_chain buf size k 0 0 w (by omega) (by decide) hw, Nat.zero_mul, Nat.zero_add, Nat.zero_add]
+  have ho : (bitsState buf size k 0).offs = 0 := rfl
+  have hr : ¬ 0 ≤ (bitsState buf size k 0).rem := by show ¬ (0 : Int) ≤ -1; decide
+  rw [twin_V k w _ ho hr]
+  unfold bitsState
+  apply ctx_ext <;> first | rfl | (show w * 2 ^ (31 - k) = 0 * 2 ^ (31 - k) + w * 2 ^ (31 - k); omega)
+
+theorem legalRun_append_mk (a b : List Op) : ∀ (c : Enc), LegalRun c a → LegalRun (encRun c a) b → LegalRun c (a ++ b) := by
+  induction a with
+  | nil => intro c _ h; exact h
+  | cons op a ih => intro c h1 h2; exact ⟨h1.1, ih _ h1.2 h2⟩
+
+/-- **Patching the placeholder is coding the true bits.**  For `k ≤ 7` leading bits, range-coded operations `body`
+    between the placeholder and the patch, and any legal continuation `suf`: the patched run and the run that codes
+    the bits `w` first end in the same state up to the representation of a pending 0xFF (in particular with the same
+    `rng`, `nbits_total`, error flag and committed bytes), both satisfy the run invariant, and `ec_enc_done` produces
+    identical results. -/
+theorem patched_eq_bits (buf : List Nat) (size k w : Nat) (body suf : List Op) (hs : size ≤ buf.length) (hb : BytesOk buf)
+    (hk1 : 1 ≤ k) (hk7 : k ≤ 7) (hw : w < 2 ^ k) (hbody : ∀ op ∈ body, op.isPrim = true ∧ op.Legal)
+    (hsuf : LegalRun (encRun (encInit buf size) (.icdf 0 (flagTable k) 8 :: (body ++ [.patchInitial w k]))) suf)
+    (hn : (encRun (encInit buf size) (.icdf 0 (flagTable k) 8 :: (body ++ [.patchInitial w k] ++ suf))).nbitsTotal < 4294967296)
+    (herr : (encRun (encInit buf size) (.icdf 0 (flagTable k) 8 :: (body ++ [.patchInitial w k] ++ suf))).error = 0) :
+    canon (encRun (encInit buf size) (.icdf 0 (flagTable k) 8 :: (body ++ [.patchInitial w k] ++ suf))) =
+      canon (encRun (encInit buf size) (bitsOps w k ++ body ++ suf)) ∧
+    RunInv (encRun (encInit buf size) (bitsOps w k ++ body ++ suf)) ∧
+    LegalRun (encInit buf size) (bitsOps w k ++ body ++ suf) ∧
+    encDone (encRun (encInit buf size) (.icdf 0 (flagTable k) 8 :: (body ++ [.patchInitial w k] ++ suf))) =
+      encDone (encRun (encInit buf size) (bitsOps w k ++ body ++ suf)) := by
+  have hk8 : k ≤ 8 := by omega
+  simp only [encRun] at hsuf hn herr ⊢
+  rw [flag_placeholder_eq buf size k hk1 hk8] at hsuf hn herr ⊢
+  rw [encRun_append, encRun_append] at hn herr ⊢
+  rw [encRun_append] at hsuf
+  simp only [encRun] at hsuf hn herr ⊢
+  rw [encRun_append, encRun_append, twin_start buf size k w hk1 hk7 hw]
+  generalize hc0 : encOp (encInit buf size) (.encodeBin 0 1 k) = c0 at *
+  -- the body
+  have herrP : (encPatchInitialBits (encRun c0 body) w k).error = 0 := by
+    apply Classical.byContradiction; intro hne
+    exact encRun_error_mono suf _ hne herr
+  have hnP : (encPatchInitialBits (encRun c0 body) w k).nbitsTotal < 4294967296 :=
+    Nat.lt_of_le_of_lt (encRun_nbits_mono suf _) hn
+  have ri0 := runInv_encInit buf size hs hb
+  have hnB : (encRun c0 body).nbitsTotal < 4294967296 := by rw [(patch_rn _ w k).2] at hnP; exact hnP
+  have herrB : (encRun c0 body).error = 0 := by
+    apply Classical.byContradiction; intro hne
+    exact encOp_error_mono _ (.patchInitial w k) hne herrP
+  have herr0 : c0.error = 0 := by
+    apply Classical.byContradiction; intro hne
+    exact encRun_error_mono body _ hne herrB
+  have hn0 : c0.nbitsTotal < 4294967296 := Nat.lt_of_le_of_lt (encRun_nbits_mono body _) hnB
+  have hleg0 : (Op.encodeBin 0 (0 + 1) k).LegalAt (encInit buf size) := ⟨by omega, by omega, hk1, by omega⟩
+  have ric0 : RunInv c0 := by
+    rw [← hc0]; exact (step_op _ _ ri0 hleg0 (by rw [hc0]; exact hn0) (by rw [hc0]; exact herr0)).run
+  have hcell0 : Cell k 0 c0 := by
+    rw [← hc0]
+    exact cell_first buf size k 0 hs hb hk1 hk8 (Nat.pow_pos (by decide)) (by rw [hc0]; exact hn0) (by rw [hc0]; exact herr0)
+  -- the twin's start satisfies the run invariant: it is a legal run from `ec_enc_init`
+  have ritw0 : RunInv (twin k w c0) := by
+    rw [← hc0, ← twin_start buf size k w hk1 hk7 hw]
+    have hl := prim_legalRun (bitsOps w k) (bitsOps_prim w k) (encInit buf size)
+    have f := twin_fields k w c0
+    refine (run_back (bitsOps w k) _ ri0 hl ?_ ?_).2.1
+    · rw [twin_start buf size k w hk1 hk7 hw, hc0, f.2.1]; exact hn0
+    · rw [twin_start buf size k w hk1 hk7 hw, hc0, f.2.2.1]; exact herr0
+  obtain ⟨t1, t2, t3, t4⟩ := twin_run k w hk1 hk8 hw body c0 ric0 ritw0 hcell0 hbody hnB herrB
+  rw [t1]
+  rw [t1] at t3
+  -- the patch
+  have hpt := patch_twin k w hk1 hk8 hw (encRun c0 body) t2 t4
+  obtain ⟨_, riP, _⟩ := patch_spec (encRun c0 body) k 0 w t2 t4 hw
+  -- the continuation
+  obtain ⟨r1, r2, r3, r4⟩ := run_canon suf _ _ riP t3 hpt hsuf hn herr
+  refine ⟨r1, r3, ?_, encDone_of_canon_eq r2 r3 r1 hn⟩
+  rw [List.append_assoc]
+  apply legalRun_append_mk _ _ _ (prim_legalRun (bitsOps w k) (bitsOps_prim w k) _)
+  rw [twin_start buf size k w hk1 hk7 hw, hc0]
+  apply legalRun_append_mk _ _ _ (prim_legalRun body hbody _)
+  rw [t1]; exact r4
 
 end Opus.RangeCoder
